@@ -712,7 +712,7 @@ def run(chk, only=None):
                 if chk.quick():
                     graphs = []
                     cells = [(i, j) for i in range(4) for j in range(4)]
-                    for _ in range(260):
+                    for _ in range(900):
                         bits = rng.getrandbits(16) & rng.getrandbits(16) if rng.random() < 0.6 else rng.getrandbits(16)
                         adj = [[] for _ in range(4)]
                         for b, (i, j) in enumerate(cells):
@@ -722,17 +722,15 @@ def run(chk, only=None):
                 else:
                     graphs = all_digraphs(4)
             for gi, adj in enumerate(graphs):
-                if chk.quick() and n == 3 and gi % 3 != chk.seed % 3:
-                    continue
                 labels = rng.sample(POOL, n)
                 kinds = "req" if rng.random() < 0.5 else "mixed"
                 rules = mk_rules(n, labels, adj, rng, kinds)
                 env = {k: rng.randint(0, 3) for k in labels}
-                sl = scheds if (not chk.quick() and n < 4) else [sched()]
+                sl = scheds if (not chk.quick() and n < 4) else ([sched()] if chk.quick() else ["sync", sched()])
                 for s in sl:
                     fresh.append(dict(family="small%d" % n, rules=rules, env=env, root=labels[0], sched=s))
         # random rule sets up to 10 keys with dynamic requests
-        for i in range(chk.n(500, 12000)):
+        for i in range(chk.n(1200, 12000)):
             labels, rules, env = gen_dynamic(rng)
             root = labels[-1] if rng.random() < 0.6 else rng.choice(labels)
             c = dict(family="dynamic", rules=rules, env=env, root=root, sched=sched())
@@ -743,7 +741,7 @@ def run(chk, only=None):
                 if cands:
                     c["post"] = rng.choice(cands)
             fresh.append(c)
-        for i in range(chk.n(150, 4000)):
+        for i in range(chk.n(400, 4000)):
             c = gen_recorded(rng)
             c["sched"] = sched()
             recorded.append(c)
@@ -826,6 +824,43 @@ def run(chk, only=None):
             continue
         builds = [b for b in enginelib.split_builds(out) if b["hdr"] != "restart"]
         J.recorded_case(c, builds)
+
+    # ---- thorough: the same histories under AddressSanitizer + UBSan (crashes and out-of-bounds reads only; no re-judging)
+    if not chk.quick() and only is None and not os.environ.get("VERIF_C07_DRIVER"):
+        adrv = vlib.build_drivers(["engine_driver"], "asan")["engine_driver"]
+        asan_env = dict(os.environ, ASAN_OPTIONS="detect_leaks=0")
+
+        def do_rec_asan(ic):
+            i, c = ic
+            rc, out, err, sp, tp = enginelib.run_impl(adrv, c["lines"], os.path.join(wd, "ar%d" % (i % 64), "x%d" % i), timeout=60, name="rec", env=asan_env)
+            return i, rc, err
+
+        def do_batch_asan(ib):
+            i, cases = ib
+            L = ["db 0"]
+            for c in cases:
+                L += case_lines(c)
+            rc, out, err, sp, tp = enginelib.run_impl(adrv, L, os.path.join(wd, "ab%d" % (i % 32)), timeout=600, name="abatch%d" % i, env=asan_env)
+            return i, rc, err
+
+        nsan = 0
+        with concurrent.futures.ThreadPoolExecutor(max_workers=min(8, vlib.NCPU)) as ex:
+            for i, rc, err in ex.map(do_rec_asan, list(enumerate(recorded[:2500]))):
+                nsan += 1
+                if rc != 0:
+                    J.viol("sanitizer-or-crash", "under ASan/UBSan the engine %s on this two-build history" % ("hung" if rc == -9 else "aborted (exit code %d)" % rc),
+                           recorded[i], dict(rc=rc, stderr=err[-3000:]), broken="c07 oracle: the build terminates (memory-safely)")
+            picked = [ib for ib in enumerate(batches) if ib[0] % 4 == 0][:40]
+            for i, rc, err in ex.map(do_batch_asan, picked):
+                nsan += len(batches[i])
+                if rc != 0:
+                    for c in batches[i]:
+                        rc1, out1, err1, sp, tp = enginelib.run_impl(adrv, ["db 0"] + case_lines(c), os.path.join(wd, "asingle"), timeout=60, name="s", env=asan_env)
+                        if rc1 != 0:
+                            J.viol("sanitizer-or-crash", "under ASan/UBSan the engine %s on this scenario" % ("hung" if rc1 == -9 else "aborted (exit code %d)" % rc1),
+                                   c, dict(rc=rc1, stderr=err1[-3000:]), broken="c07 oracle: the build terminates (memory-safely)")
+                            break
+        chk.cov["asan_cases"] = nsan
 
     # ---- tie: the extracted findCycle model on every dumped graph
     reqs = [t[0] for t in J.tie]
